@@ -15,7 +15,7 @@ import vworker
 from vcheck import coq_string, coq_list, coq_z
 
 HEADER = "From V.C10 Require Import Spec Model Lock Run.\nOpen Scope string_scope.\n"
-NAMES = ["A", "a", "B", "f", "\\f", "App\\P"]
+NAMES = ["A", "a", "Ab", "aB", "AB", "f", "\\f", "App\\P"]   # Ab/aB/AB: two registered spellings + a third one looked up (minimum-key rule)
 FILES = ["/nonexistent-c10/a.php", "/nonexistent-c10/b.php"]
 KIND = {"c": "KC", "i": "KI", "f": "KF"}
 # Go method -> engine op that drives it (for biasing the stress when the table obligation fails)
@@ -23,7 +23,9 @@ METHOD_OPS = {"AddClass": "add:c", "AddInterface": "add:i", "AddFunc": "add:f", 
               "findClassCaseInsensitive": "get:c", "GetInterface": "get:i", "GetFunc": "get:f",
               "SetConstant": "setconst", "GetConstant": "getconst", "EnsureGlobalZVal": "global",
               "SetPhpFileCache": "setfile", "GetPhpFileCache": "getfile", "EnterCall": "depth", "LeaveCall": "depth",
-              "SetExceptionHandler": "handler", "GetExceptionHandler": "handler", "ThrowControl": "handler"}
+              "SetExceptionHandler": "handler", "GetExceptionHandler": "handler", "ThrowControl": "handler",
+              "AddShutdownCallback": "shutdown", "RunShutdownCallbacks": "shutdown", "shutdownSnapshot": "shutdown",
+              "RegisterCompiledFile": "compiledfile", "RegisterGlobalContext": "globalctx"}
 
 
 def coq_call(o, idx):
@@ -51,8 +53,8 @@ def coq_obs(r):
 
 def rand_op(rng, nextfile, used, scalars=False, names=NAMES):
     r = rng.random()
-    if scalars and r < 0.12:
-        return {"op": rng.choice(["depth", "handler"]), "val": rng.randint(1, 5)}
+    if scalars and r < 0.16:
+        return {"op": rng.choice(["depth", "handler", "shutdown", "compiledfile", "globalctx"]), "val": rng.randint(1, 5), "name": rng.choice(FILES)}
     if r < 0.40:
         if used and rng.random() < 0.25:
             f = rng.choice(used)
@@ -100,8 +102,8 @@ def gen_threads(rng, nthreads, nops, scalars, bias=None):
                         ops.append({"op": "add", "kind": kind, "name": rng.choice(NAMES), "file": f})
                     else:
                         ops.append({"op": "get", "kind": kind, "name": rng.choice(NAMES)})
-                elif b in ("depth", "handler"):
-                    ops.append({"op": b, "val": 1})
+                elif b in ("depth", "handler", "shutdown", "compiledfile", "globalctx"):
+                    ops.append({"op": b, "val": 1, "name": FILES[0]})
                 else:
                     o = rand_op(rng, nextfile, used)
                     o["op"] = b if b in ("global", "setfile", "getfile", "setconst", "getconst") else o["op"]
@@ -185,6 +187,32 @@ def main(ck):
         ck.cov["lock_table_methods"] = len(re.findall(r'^\s*\[?\s*\("', body, re.M))
         ck.cov["ill_locked_methods"] = ill
         ck.cov["skeleton_mismatch"] = skel_bad
+
+    # the same for runtime.TempVM (a request's goroutines share it when the handler spawns): every method of *TempVM
+    rc, ttable = vcheck.sh([binary, "walk", vcheck.REPO, "runtime", "TempVM", "vm_temp.go"]) if binary else (1, "")
+    if rc != 0 or "Definition vm_fields" not in ttable:
+        ck.log("walker failed on TempVM:\n" + ttable[-800:])
+        ck.broken.append("translator:lock-walker(TempVM)")
+    else:
+        tbody = ttable[ttable.index("Definition vm_fields"):].replace("vm_fields", "temp_fields").replace("vm_map_fields", "temp_map_fields").replace("vm_table", "temp_table")
+        tobl = os.path.join(ck.bdir, "TempLockObligations.v")
+        open(tobl, "w").write("(* GENERATED — lock table of runtime/vm_temp.go (type TempVM) *)\nFrom Coq Require Import List String.\nImport ListNotations.\nFrom V.Common Require Import LockDiscipline.\nOpen Scope string_scope.\n\n" + tbody +
+                              "\nSet Printing Width 100000.\nDefinition ill := Eval vm_compute in ill_locked temp_table.\nPrint ill.\n"
+                              "Lemma temp_table_well_locked : well_locked temp_table = true.\nProof. vm_compute. reflexivity. Qed.\n"
+                              "Theorem temp_race_free : forall progs sched, Forall (from_table temp_table) progs -> ~ race (LockDiscipline.run (init_state progs) sched).\n"
+                              "Proof. exact (well_locked_race_free_l temp_table temp_table_well_locked). Qed.\n")
+        rc, o = ck.coqc(tobl, cwd=ck.bdir, timeout=300)
+        ck.obligations += 2
+        m = re.search(r"ill\s*=\s*\[(.*?)\]\s*:\s*list string", o, re.S)
+        till = re.findall(r'"([^"]+)"', m.group(1)) if m else []
+        ck.cov["tempvm_ill_locked_methods"] = till
+        if rc == 0:
+            ck.discharged += 2
+            ck.theorems += ["temp_table_well_locked", "temp_race_free"]
+        else:
+            ck.log("regenerated TempVM lock obligations FAILED; ill-locked: %s" % till)
+            ck.broken.append("obligation:well_locked temp_table (ill-locked: %s)" % ",".join(till))
+            ck.coq_log_tail = o[-1500:]
 
     # ---------------------------------------------------------------- (ii) sequential tie
     seqs = []
@@ -301,7 +329,7 @@ def main(ck):
                         nauto += 1
                         if r["r"] != 0 or r["d"] != want[op["name"]]:
                             nauto_bad += 1
-                            ck.violation("autoload-race:not-found:" + op["op"],
+                            ck.violation(("autoload:wrong-definition:" if r["r"] == 0 and r["d"] >= 0 else "autoload-race:not-found:") + op["op"],
                                          {"mode": "autoload", "case": c, "impl_out": {"op": op, "result": r},
                                           "clause": "a GetOrLoad*/LoadPkg call that succeeds in every sequential order failed under concurrency"})
     ck.cov["autoload_calls"] = nauto
@@ -329,6 +357,15 @@ def main(ck):
                 ths.append(t)
             base = [{"op": "add", "kind": rng.choice("cif"), "name": rng.choice(["B1", "B2"]), "file": 900 + i} for i in range(5)]
             tcfgs.append({"autoload": AUTO, "temps": [True] * n + [False], "threads": ths + [base], "gomaxprocs": g, "repeat": 20, "keepall": True})
+        # coroutines spawned inside ONE request share its TempVM (audit finding 3): disjoint names per goroutine, common autoloads
+        for (n, g) in [(4, 4), (8, 16)]:
+            ths = []
+            for t in range(n):
+                ths.append([{"op": "add", "kind": "c", "name": "T%d" % t, "file": t + 1}, {"op": "goc", "name": "App\\P"},
+                            {"op": "add", "kind": "f", "name": "g%d" % t, "file": 50 + t}, {"op": "goi", "name": "App\\Q"},
+                            {"op": "pkg", "name": "App\\S"}, {"op": "setfile", "name": "/nonexistent-c10/s%d.php" % t},
+                            {"op": "shutdown", "val": t}])
+            tcfgs.append({"autoload": AUTO, "temps": [True] * n, "sharedtemp": True, "threads": ths, "gomaxprocs": g, "repeat": 20, "keepall": True})
     elif json.load(open(ck.replay)).get("mode") == "temps":
         tcfgs = [json.load(open(ck.replay))["case"]]
 
@@ -354,6 +391,11 @@ def main(ck):
                 continue
             for run in ((o.get("alls") or [[]])[0] or [])[:6]:
                 for ti, (ops, rs) in enumerate(zip(c["threads"], run)):
+                    if c.get("sharedtemp"):
+                        if any(r["r"] != 0 for r in rs):
+                            ck.violation("temps:shared-request-vm:op-failed", {"mode": "temps", "case": c, "impl_out": {"thread": ti, "results": rs},
+                                                                              "clause": "goroutines sharing one request TempVM: every definition/autoload on disjoint names succeeds"})
+                        continue
                     if not c["temps"][ti]:
                         continue
                     sterms.append("(%s, %s, %s)" % (CPT, coq_list(coq_op12(x) for x in ops), coq_list(coq_obs(r) for r in rs)))
